@@ -247,10 +247,13 @@ func randIP(r *gen.Rand) net.IP {
 // step applies one random building operation. Returns false to stop the sequence.
 func (s *c03State) step() bool {
 	r, m := s.r, s.m
-	switch r.Intn(26) {
+	switch r.Intn(30) {
 	case 0, 1, 2, 3: // Add
 		t := r.AttrType()
 		n := r.ValueLen(3000)
+		if r.Chance(1, 30) {
+			t, n = 0x0000, 0 // type 0 with an empty value: four zero bytes on the wire, still an attribute
+		}
 		if !s.fits(n) {
 			return true
 		}
@@ -392,7 +395,7 @@ func (s *c03State) step() bool {
 		}
 	case 10: // error code
 		n := r.ValueLen(300)
-		if !s.fits(n + 4) {
+		if !s.fits(n+4) || !s.fits(4+16) { // the second bound covers the library's own reason phrase for CodeStaleNonce
 			return true
 		}
 		var err error
@@ -662,6 +665,60 @@ func (s *c03State) step() bool {
 			return false
 		}
 		s.attrs, s.lead, s.trail, s.aliasAdded = newAttrs, 0, false, alias
+	case 25: // retag an attribute in the struct, then Encode: the wire must carry the new type
+		if len(s.attrs) == 0 {
+			return true
+		}
+		k := r.Intn(len(s.attrs))
+		nt := r.AttrType()
+		s.op(fmt.Sprintf("Attributes[%d].Type=%#x;Encode", k, nt))
+		m.Attributes[k].Type = stun.AttrType(nt)
+		s.attrs[k].typ = nt
+		if nt == 0x8020 {
+			s.aliasAdded = true
+		}
+		m.Encode()
+		s.lead, s.trail = 0, false
+		for i := range s.attrs {
+			s.attrs[i].built = true
+			s.attrs[i].wire = s.attrs[i].typ
+		}
+		if want := s.canonical(); !bytes.Equal(m.Raw, want) {
+			s.fail("not-canonical", "Encode after retagging an attribute differs from the reference encoding")
+
+			return false
+		}
+	case 26: // the Type field is assigned directly (as the repository's own tools do), then SetType with that very type
+		method, class := uint16(r.Intn(0x1000)), uint8(r.Intn(4))
+		t := stun.NewType(stun.Method(method), stun.MessageClass(class))
+		s.op(fmt.Sprintf("Type=%#x/%d;SetType(same)", method, class))
+		m.Type = t
+		m.SetType(t)
+		s.method, s.class, s.lead = method, class, 0
+	case 27: // many small attributes at once (more than 64), some types repeated with different values
+		n := 65 + r.Intn(80)
+		if s.bodyLen()+n*12 > 65535 {
+			return true
+		}
+		s.op(fmt.Sprintf("Add x%d (small, repeated types)", n))
+		for k := 0; k < n; k++ {
+			t := []uint16{0x8022, 0x0006, 0x7f01, 0x0014}[r.Intn(4)]
+			v := r.Bytes(r.Intn(7))
+			m.Add(stun.AttrType(t), v)
+			s.attrs = append(s.attrs, shAttr{typ: t, wire: t, val: v, built: true})
+		}
+		s.trail = false
+	case 28: // fill the message up to the very top of the 16-bit length field
+		room := 65532 - 4*r.Intn(5) - s.bodyLen()
+		if room < 8 {
+			return true
+		}
+		n := room - 4 - r.Intn(4)
+		v := r.Bytes(n)
+		s.op(fmt.Sprintf("Add(fill to body %d)", s.bodyLen()+4+(n+3)/4*4))
+		m.Add(0x0013, v)
+		s.attrs = append(s.attrs, shAttr{typ: 0x0013, wire: 0x0013, val: v, built: true})
+		s.trail = false
 	default: // WriteLength / WriteType / WriteTransactionID are idempotent on a consistent message
 		s.op("WriteLength+WriteTransactionID")
 		m.WriteLength()
